@@ -42,7 +42,10 @@ def handler_lists(maxlen, rng, cap):
                 continue
             out.append(list(names))
     # multi-name handlers
-    out += [[('KeyError', 'ValueError')], [('IndexError', 'ValueError'), 'LookupError'], ['', ]]
+    out += [[('KeyError', 'ValueError')], [('IndexError', 'ValueError'), 'LookupError'], ['', ],
+            # a class named by more than one clause: the first clause naming it (or a base of the raised class) is the handler
+            ['KeyError', ('LookupError', 'KeyError')], ['KeyError', 'KeyError'], [('ValueError', 'KeyError'), 'KeyError', ''],
+            ['LookupError', ('IndexError', 'LookupError'), 'Exception'], ['ValueError', 'IndexError', ('ValueError', 'IndexError')]]
     if len(out) > cap:
         rng.shuffle(out)
         out = out[:cap]
